@@ -1,6 +1,8 @@
 ---------------------------- MODULE MCTraversal ----------------------------
 EXTENDS Traversal
-Sels == { [kind |-> "all", d |-> 0], [kind |-> "depth", d |-> 1], [kind |-> "depth", d |-> 2], [kind |-> "depth", d |-> 3] }
+S(k, d, p) == [kind |-> k, d |-> d, p |-> p]
+Sels == { S("all", 0, <<>>), S("depth", 1, <<>>), S("depth", 2, <<>>), S("depth", 3, <<>>),
+          S("path", 0, <<1>>), S("path", 0, <<2>>), S("path", 0, <<1, 1>>), S("path", 0, <<2, 1>>) }
 Opts == { [sel |-> s, once |-> o, budget |-> b] : s \in Sels, o \in BOOLEAN, b \in {-1, 1, 3} }
 Nodes4 == <<"n1", "n2", "n3", "n4">>
 Nodes3 == <<"n1", "n2", "n3">>
